@@ -5,6 +5,8 @@ CONSTANTS
   MaxList = 2
   VecDom = {0, 1, 1000000}
   MaxVec = 3
+  SciIn = {}
+  SciNeg = {}
 VIEW McView
 INVARIANT TypeOK Legal TotalOrder
 PROPERTY LegalReplies ConstructionExact CmpSound SortMinMaxSound ParetoSound
